@@ -123,11 +123,11 @@ func egProgram[E egElem[E, S], S algebra.PrimeFieldElement[S]](cx *grp[E, S], ke
 				var c *egCom[E, S]
 				var e1, e2, e3 error
 				if rng.Chance(1, 3) {
-					kk := int64(rng.Intn(201)) - 100
-					s = new(big.Int).Mod(big.NewInt(kk), cx.q)
-					m, e1 = commitments.MessageScalarOpSignedNumeric(key, a.m, zInt(big.NewInt(kk)))
-					w, e2 = commitments.WitnessScalarOpSignedNumeric(key, a.w, zInt(big.NewInt(kk)))
-					c, e3 = commitments.CommitmentScalarOpSignedNumeric(key, a.c, zInt(big.NewInt(kk)))
+					kk := cx.numericScalar(rng)
+					s = new(big.Int).Mod(kk, cx.q)
+					m, e1 = commitments.MessageScalarOpSignedNumeric(key, a.m, zInt(kk))
+					w, e2 = commitments.WitnessScalarOpSignedNumeric(key, a.w, zInt(kk))
+					c, e3 = commitments.CommitmentScalarOpSignedNumeric(key, a.c, zInt(kk))
 				} else {
 					m, e1 = key.MessageScalarOp(a.m, cx.sc(s))
 					w, e2 = key.WitnessScalarOp(a.w, cx.sc(s))
@@ -189,7 +189,7 @@ func elgamalCase[E egElem[E, S], S algebra.PrimeFieldElement[S]](r *runner, c co
 	rng := vh.NewRng(r.a.Seed, "C18", stream, i)
 	id := fmt.Sprintf("E-%s-%d", cx.name, i)
 	G := cx.g.Generator()
-	x := cx.randScalar(rng)
+	x := new(big.Int).Mod(cx.randScalar(rng), cx.q)
 	if x.Cmp(bi(1)) <= 0 {
 		x = bi(2)
 	}
@@ -211,8 +211,12 @@ func elgamalCase[E egElem[E, S], S algebra.PrimeFieldElement[S]](r *runner, c co
 		return cs[0], cs[1]
 	}
 	implOpen := make([]string, len(regs))
+	ems, ers := evalOps(ops, cx.q)
 	for k, g := range regs {
 		g := g
+		if !g.m.Value().Value().Equal(G.ScalarOp(cx.sc(ems[k]))) || cx.z(g.w.Value().Value()).Cmp(ers[k]) != 0 {
+			r.prop(fmt.Sprintf("%s.v%d", id, k), "indcpacom-combined-value", fmt.Sprintf("register %d (after %s): message/nonce are not the combined ones (%s·G, %s)", k, ops[k].text(), zh(ems[k]), zh(ers[k])), cse, "eg_homomorphic")
+		}
 		implOpen[k] = verdict(func() error { return key.Open(g.c, g.m, g.w) })
 		if implOpen[k] != "1" {
 			r.prop(fmt.Sprintf("%s.r%d", id, k), "indcpacom-homomorphic-open", fmt.Sprintf("register %d (after %s) does not open to the combined message and nonce: %s", k, ops[k].text(), implOpen[k]), cse, "eg_homomorphic")
@@ -226,10 +230,11 @@ func elgamalCase[E egElem[E, S], S algebra.PrimeFieldElement[S]](r *runner, c co
 		}
 		for k, g := range regs {
 			var d []string
-			if !g.m.Value().Value().Equal(G.ScalarOp(cx.sc(mr[k].m))) || mus[k].Cmp(mr[k].m) != 0 {
+			modq := func(x *big.Int) *big.Int { return new(big.Int).Mod(x, cx.q) }
+			if !g.m.Value().Value().Equal(G.ScalarOp(cx.sc(mr[k].m))) || modq(mus[k]).Cmp(modq(mr[k].m)) != 0 {
 				d = append(d, fmt.Sprintf("message ≠ %s·G", zh(mr[k].m)))
 			}
-			if cx.z(g.w.Value().Value()).Cmp(mr[k].r) != 0 {
+			if cx.z(g.w.Value().Value()).Cmp(modq(mr[k].r)) != 0 {
 				d = append(d, fmt.Sprintf("nonce %s model %s", zh(cx.z(g.w.Value().Value())), zh(mr[k].r)))
 			}
 			c1, c2 := comps(g.c)
@@ -285,7 +290,8 @@ func elgamalCase[E egElem[E, S], S algebra.PrimeFieldElement[S]](r *runner, c co
 		}
 		var pend []pendT
 		for vi, v := range vs {
-			if strings.HasPrefix(v.name, "msg") && v.mu.Cmp(mu) == 0 || strings.HasPrefix(v.name, "wit") && v.w.Cmp(w) == 0 {
+			v.mu, v.w = new(big.Int).Mod(v.mu, cx.q), new(big.Int).Mod(v.w, cx.q)
+			if strings.HasPrefix(v.name, "msg") && v.mu.Cmp(new(big.Int).Mod(mu, cx.q)) == 0 || strings.HasPrefix(v.name, "wit") && v.w.Cmp(w) == 0 {
 				continue
 			}
 			vid := fmt.Sprintf("%s.t%d.%d", id, t, vi)
